@@ -89,6 +89,10 @@ fn update_oracle_msgs(
     env: &Env,
     config: &Config,
 ) -> Result<Vec<CosmosMsg>, ContractError> {
+    // The oracle is optional: without one there is nothing to post.
+    let Some(oracle_address) = config.protocol_chain_config.oracle_address.clone() else {
+        return Ok(vec![]);
+    };
     let (redemption_rate, purchase_rate) = get_rates(&deps);
     let mut messages: Vec<CosmosMsg> = Vec::new();
     // Post rates to Milkyway Oracle contract
@@ -102,12 +106,7 @@ fn update_oracle_msgs(
     messages.push(
         MsgExecuteContract {
             sender: env.contract.address.to_string(),
-            contract: config
-                .protocol_chain_config
-                .oracle_address
-                .clone()
-                .unwrap()
-                .to_string(),
+            contract: oracle_address.to_string(),
             msg: post_rate_msg_json.as_bytes().to_vec(),
             funds: vec![],
         }
